@@ -41,7 +41,7 @@ build_portable() {
     echo "BUILD-FAILURE (not a property violation): portable variant (-tags go1.25) of $REPO with hooks does not build" ; tail -30 .build/build-portable.log; exit 2
   fi
 }
-needs_portable() { case "$1" in C18|C06|C16) return 0;; *) return 1;; esac; }
+needs_portable() { case "$1" in C18|C06|C16|C02) return 0;; *) return 1;; esac; }
 cmd=${1:-}
 case "$cmd" in
   build) build; build_race; build_portable ;;
@@ -53,7 +53,7 @@ case "$cmd" in
     exec "$ROOT/bin/verif" check "$2" --tier "$tier" ;;
   replay)
     build
-    case "$2" in */C18/*|*/C06/*|*/C16/*) build_portable;; esac
+    case "$2" in */C18/*|*/C06/*|*/C16/*|*/C02/*) build_portable;; esac
     exec "$ROOT/bin/verif" replay "$2" ;;
   *) echo "usage: run.sh check <ID> [tier] | replay <file> | build"; exit 2 ;;
 esac
